@@ -163,6 +163,8 @@ class FlowGraph:
                         arg_places.append(p)
                 if "fop" in t:
                     self._use_op(body, dst, t["fop"])
+                dl = place_local(t["dest"])
+                dest_is_mut = _is_mut_ref_ty(body.locals[dl])
                 for p in arg_places:
                     l = place_local(p)
                     if _is_mut_ref_ty(body.locals[l]):
@@ -171,6 +173,10 @@ class FlowGraph:
                         for q in arg_places:
                             if q is not p:
                                 self._edge(n, self.key(body, q))
+                        # a &mut returned from a &mut argument (deref_mut,
+                        # as_mut, iter_mut ..) aliases the argument's pointee
+                        if dest_is_mut:
+                            self._edge(n, dst)
             elif t["k"] == "yield":
                 pass
 
